@@ -145,6 +145,43 @@ def fixtures():
     expect("R-RDB-CARRY", got, ["carry_bad_early_return"], ["carry_ok_reset_everywhere"])
     got, _ = run_rule(rules_int.rule_rdb_text_numbers)
     expect("R-RDB-TEXTNUM", got, ["textnum_bad"], ["textnum_ok"])
+    # backward value flow (flow.py) and the rules built on it
+    import flow, rules_pubsub, rules_coll, rules_block, rules_stream
+    got = set()
+    for fn, b in sorted(ctx.prog.bodies.items()):
+        if not fn.startswith("fl::fl_"):
+            continue
+        for i, t in b.calls():
+            if callee(t) == "fl::sink":
+                if any(rules_pubsub.BYTE_ALTERING.search(c or "") for c, _, _ in flow.flow_calls(ctx, fn, t["a"][0])):
+                    got.add(fn)
+    expect("flow/bytes", got, ["fl_bad_lossy_helper_closure", "fl_bad_lossy_push"], ["fl_ok_bytes_push", "fl_ok_bytes_collect", "fl_ok_other_value_altered"])
+    got = set()
+    for fn, b in sorted(ctx.prog.bodies.items()):
+        if fn.startswith("fl::idx_"):
+            for i, f, nc, clamps, related in rules_coll.single_index_sites(ctx, fn, b):
+                if clamps and not related:
+                    got.add(fn)
+    expect("R-IDX-SINGLE", got, ["idx_bad_clamped"], ["idx_ok_checked", "idx_ok_clamp_behind_range_check"])
+    got = set()
+    for fn, b in sorted(ctx.prog.bodies.items()):
+        if fn.startswith("fl::om_"):
+            for i, t in b.calls():
+                if re.search(r"OpenOptions::open|File::create", t["f"] or ""):
+                    m = rules_rdb.open_mode(ctx, b, i, t)
+                    if m is None or m.get("create_new") or m.get("append") or not m.get("truncate"):
+                        got.add(fn)
+    expect("open-mode", got, ["om_bad_create_new", "om_bad_no_truncate"], ["om_ok_create_truncate", "om_ok_file_create"])
+    got = set()
+    for fn, b in sorted(ctx.prog.bodies.items()):
+        if fn.startswith("fl::bf_"):
+            if any(bad for _, _, _, bad, _ in rules_block.forever_sites(b)):
+                got.add(fn)
+    expect("R-BLK-FOREVER", got, ["bf_bad_zero_only_on_integer_branch"], ["bf_ok_float_pattern", "bf_ok_flag"])
+    got, _ = run_rule(rules_conn.rule_sock_write)
+    expect("R-SOCK-WRITE", got, ["sock_bad_write_all", "sock_bad_count_dropped"], ["sock_ok_partial"])
+    got, _ = run_rule(rules_stream.rule_cg_atomic)
+    expect("R-CG-ATOMIC", got, ["cg_bad_insert_then_err"], ["cg_ok_check_then_insert", "cg_ok_remove_none_is_err", "cg_ok_local_copy_mutated"])
     _FX = (n, fails)
     return _FX
 
